@@ -73,7 +73,7 @@ pub fn run(ctx: &Ctx) -> i32 {
             match catch(|| { let enc = e.encrypt_to_recipient(&kp.pk); let dec = enc.decrypt_to_recipient(&kp.sk); (enc, dec) }) {
                 Err(p) => acc.viol(format!("C10|encrypt_to_recipient|panic|{}", p.site), p.msg.clone(), cid("roundtrip"), json!({"tree": m.show()})),
                 Ok((enc, Ok(d))) => {
-                    if bind::observe(&d) != bind::observe(&e) || !d.is_identical_to(&e) { acc.viol("C10|encrypt_to_recipient|listed|differs", "decrypt_to_recipient(encrypt_to_recipient(e)) is not identical to e", cid("roundtrip"), json!({"tree": m.show(), "got": d.format_flat()})) }
+                    if bind::observe(&d) != bind::observe(&e) || !d.is_identical_to(&e) { acc.viol("C10|encrypt_to_recipient|listed|differs", "decrypt_to_recipient(encrypt_to_recipient(e)) is not identical to e", cid("roundtrip"), json!({"tree": m.show(), "got": crate::report::ff(&d)})) }
                     if bind::dg(&enc.subject()) != crate::refmodel::sha256::sha256(&m.digest()) { acc.viol("C10|encrypt_to_recipient|subject-digest", "the encrypted subject does not carry the digest of the wrapped original", cid("digest"), json!({"tree": m.show()})) }
                     for (o, op) in keys.iter().enumerate() { if o != k { if let Ok(Ok(_)) = catch(|| enc.decrypt_to_recipient(&op.sk)) { acc.viol("C10|encrypt_to_recipient|unlisted|decrypts", "another key opened it", cid(&format!("other-{}", op.name)), json!({})) } } }
                 }
